@@ -40,20 +40,28 @@ pub struct FilterLog {
     pub shown: Mutex<Vec<Shown>>,
     pub runs: Mutex<usize>,
     pub finished: Mutex<usize>,
+    pub mid_snaps: Mutex<Vec<u64>>,
 }
 
 pub struct Factory {
     keys: Vec<Vec<u8>>,
     verdicts: Vec<VerdictSpec>,
     log: Arc<FilterLog>,
+    mid: Option<lsm_tree::SequenceNumberCounter>,
 }
 
 impl Factory {
-    pub fn new(keys: Vec<Vec<u8>>, verdicts: Vec<VerdictSpec>, log: Arc<FilterLog>) -> Self {
+    pub fn new(
+        keys: Vec<Vec<u8>>,
+        verdicts: Vec<VerdictSpec>,
+        log: Arc<FilterLog>,
+        mid: Option<lsm_tree::SequenceNumberCounter>,
+    ) -> Self {
         Self {
             keys,
             verdicts,
             log,
+            mid,
         }
     }
 }
@@ -76,6 +84,8 @@ impl lsm_tree::compaction::Factory for Factory {
             verdicts: self.verdicts.clone(),
             log: self.log.clone(),
             run: *r,
+            mid: self.mid.clone(),
+            first: true,
         })
     }
 }
@@ -85,6 +95,8 @@ struct Filter {
     verdicts: Vec<VerdictSpec>,
     log: Arc<FilterLog>,
     run: usize,
+    mid: Option<lsm_tree::SequenceNumberCounter>,
+    first: bool,
 }
 
 impl CompactionFilter for Filter {
@@ -93,6 +105,13 @@ impl CompactionFilter for Filter {
         item: ItemAccessor<'_>,
         ctx: &lsm_tree::compaction::filter::Context,
     ) -> lsm_tree::Result<Verdict> {
+        if self.first {
+            self.first = false;
+            if let Some(vis) = &self.mid {
+                // a concurrent reader opens a snapshot while this compaction is running
+                self.log.mid_snaps.lock().unwrap().push(vis.get());
+            }
+        }
         let key = item.key().to_vec();
         // value() is unreachable!() on tombstones: catch that as an observation, not a crash
         let value = match std::panic::catch_unwind(std::panic::AssertUnwindSafe(|| item.value())) {
